@@ -25,6 +25,11 @@ type Part struct {
 	TimeoutS int    // wall-clock watchdog per child; firing = inconclusive
 	Env      []string
 	Races    bool // DATA RACE blocks in the child's race log are violations of this property (C18); otherwise only counted
+	// MemLimitMB > 0: the child runs under `ulimit -v` (address-space limit). The sandbox has no memory limit of its own, so an
+	// allocation sized by a hostile length field would either succeed silently or get the child SIGKILLed by the kernel;
+	// with the limit the Go runtime dies with "fatal error: ... out of memory", which is reported as a crash of the server.
+	// Only for non-race binaries (the race detector reserves terabytes of address space).
+	MemLimitMB int
 	// CrashIsViolation: a child that dies with a Go panic/fatal error is a violation of the property
 	// (true for every part: the property-specific signature says where).
 }
@@ -345,8 +350,13 @@ func runChild(prop string, p Part, batch int, tier string, seed uint64, work str
 		return res
 	}
 	defer lf.Close()
-	cmd := exec.Command(binPath(p.Bin), "worker", prop, p.Name, "-tier", tier, "-seed", strconv.FormatUint(seed, 10),
-		"-batch", strconv.Itoa(batch), "-out", out, "-journal", journal)
+	args := []string{"worker", prop, p.Name, "-tier", tier, "-seed", strconv.FormatUint(seed, 10),
+		"-batch", strconv.Itoa(batch), "-out", out, "-journal", journal}
+	cmd := exec.Command(binPath(p.Bin), args...)
+	if p.MemLimitMB > 0 && p.Bin == "plain" {
+		sh := fmt.Sprintf("ulimit -v %d; exec \"$0\" \"$@\"", p.MemLimitMB*1024)
+		cmd = exec.Command("/bin/sh", append([]string{"-c", sh, binPath(p.Bin)}, args...)...)
+	}
 	cmd.Dir = sandbox
 	cmd.Stdout = lf
 	cmd.Stderr = lf
@@ -582,8 +592,19 @@ func ParseRaceLog(path string) (out []Violation, harnessOnly int) {
 
 // Journal is an append-only, fsynced log of hostile inputs, written before they are sent.
 type Journal struct {
-	f  *os.File
-	mu sync.Mutex
+	f    *os.File
+	mu   sync.Mutex
+	last []string // the most recent entries (witness for verdicts reached inside the child)
+}
+
+// Last returns the most recent journal entries (up to 6), newest last.
+func (j *Journal) Last() string {
+	if j == nil {
+		return ""
+	}
+	j.mu.Lock()
+	defer j.mu.Unlock()
+	return strings.Join(j.last, " || ")
 }
 
 func OpenJournal(path string) *Journal {
@@ -598,7 +619,16 @@ func (j *Journal) Log(sync bool, format string, a ...any) {
 		return
 	}
 	j.mu.Lock()
-	fmt.Fprintf(j.f, format+"\n", a...)
+	line := fmt.Sprintf(format, a...)
+	if len(line) > 400 {
+		j.last = append(j.last, line[:400]+"…")
+	} else {
+		j.last = append(j.last, line)
+	}
+	if len(j.last) > 6 {
+		j.last = j.last[len(j.last)-6:]
+	}
+	fmt.Fprintln(j.f, line)
 	if sync {
 		j.f.Sync()
 	}
